@@ -30,10 +30,15 @@ random_system(rng, ...)          a generated system with ground truth
 variants: permute_equations, permute_variables, permute_components, permute_connections, rename_per_component
 class_of(system)                 {(c, v): class id}
 """
-import copy
-import itertools
+import json
+
 
 OPS = ["plus", "minus", "times"]
+
+
+def _copy(x):
+    """deep copy of a JSON-able value"""
+    return json.loads(json.dumps(x))
 
 # ------------------------------------------------------------------------------------------ basics
 
@@ -440,9 +445,11 @@ def random_system(rng, max_classes=8, p_ode=0.6, p_nla=0.35, flat_only=False):
         elif kind == "nla1":
             # one unknown, not isolated:  k (op) d = f(...)
             k = b.new_class()
-            pool = consts + cconsts + nonconst
-            deps = rng.sample(pool, min(len(pool), rng.randint(0, 2)))
             guess = rng.random() < 0.5
+            # (an initialised class in an otherwise determined equation is read by the analyser as one more
+            #  unknown with an initial guess, so an equation with a guess does not read plain constants)
+            pool = (cconsts + nonconst) if guess else (consts + cconsts + nonconst)
+            deps = rng.sample(pool, min(len(pool), rng.randint(0, 2)))
             lhs = b.sum_expr(ci, [k] + deps[:1], with_cn=False) if deps[:1] else ["O", ["V", b.name(k, ci)], ["V", b.name(k, ci)]]
             rhs = b.sum_expr(ci, deps[1:])
             definer[k] = [b.add_eq(ci, lhs, rhs)]
@@ -459,7 +466,7 @@ def random_system(rng, max_classes=8, p_ode=0.6, p_nla=0.35, flat_only=False):
             # m equations over m unknowns, all with an initial guess, every equation mentions every unknown
             m = rng.choice([2, 2, 3])
             ks = [b.new_class() for _ in range(m)]
-            pool = consts + cconsts + nonconst
+            pool = cconsts + nonconst
             ids = []
             for _ in range(m):
                 deps = rng.sample(pool, min(len(pool), rng.randint(0, 2)))
@@ -522,6 +529,8 @@ def random_system(rng, max_classes=8, p_ode=0.6, p_nla=0.35, flat_only=False):
         feats.add("name_shared_by_classes")
     if any(c["parent"] is not None for c in s["comps"]):
         feats.add("encapsulation")
+    if not parser_safe(s):
+        return random_system(rng, max_classes, p_ode, p_nla, flat_only)
     s["truth"] = {"type": typ, "roles": {str(k): r for k, r in roles.items()},
                   "definer": {str(k): v for k, v in definer.items()}, "kinds": {str(k): v for k, v in kinds.items()},
                   "features": sorted(feats), "variant": "base"}
@@ -537,12 +546,12 @@ def _eq_positions(s):
 
 def variant_extra_equation(rng, s):
     """a second defining equation for a class that already has one -> over-constrained"""
-    s = copy.deepcopy(s)
+    s = _copy(s)
     pos = _eq_positions(s)
     if not pos:
         return None
     ci, qi = rng.choice(pos)
-    q = copy.deepcopy(s["comps"][ci]["eqs"][qi])
+    q = _copy(s["comps"][ci]["eqs"][qi])
     q["id"] = 1 + max(e["id"] for c in s["comps"] for e in c["eqs"])
     s["comps"][ci]["eqs"].insert(rng.randrange(len(s["comps"][ci]["eqs"]) + 1), q)
     s["truth"] = dict(s["truth"], variant="extra_equation", type="overconstrained", added=q["id"])
@@ -551,7 +560,7 @@ def variant_extra_equation(rng, s):
 
 def variant_missing_equation(rng, s):
     """drop one equation -> some class is never computed -> under-constrained"""
-    s = copy.deepcopy(s)
+    s = _copy(s)
     pos = _eq_positions(s)
     if not pos:
         return None
@@ -563,7 +572,7 @@ def variant_missing_equation(rng, s):
 
 def variant_uninitialised_state(rng, s):
     """remove the initial value of a state -> 'used in an ODE, but not initialised'"""
-    s = copy.deepcopy(s)
+    s = _copy(s)
     st = [int(k) for k, r in s["truth"]["roles"].items() if r == "state"]
     if not st:
         return None
@@ -578,7 +587,7 @@ def variant_uninitialised_state(rng, s):
 
 def variant_double_init(rng, s):
     """two variables of one class both initialised -> invalid"""
-    s = copy.deepcopy(s)
+    s = _copy(s)
     cands = []
     for ci, c in enumerate(s["comps"]):
         for vi, v in enumerate(c["vars"]):
@@ -593,7 +602,7 @@ def variant_double_init(rng, s):
 
 
 def variant_initialised_voi(rng, s):
-    s = copy.deepcopy(s)
+    s = _copy(s)
     v = [int(k) for k, r in s["truth"]["roles"].items() if r == "voi"]
     if not v or s["truth"]["type"] not in ("ode", "dae"):
         return None
@@ -616,7 +625,7 @@ def _remap_conns(s, f):
 
 def permute_equations(rng, s):
     """shuffle the equations inside every component's math"""
-    s = copy.deepcopy(s)
+    s = _copy(s)
     for c in s["comps"]:
         rng.shuffle(c["eqs"])
     return s
@@ -624,7 +633,7 @@ def permute_equations(rng, s):
 
 def permute_variables(rng, s):
     """shuffle the variables inside every component"""
-    s = copy.deepcopy(s)
+    s = _copy(s)
     maps = {}
     for ci, c in enumerate(s["comps"]):
         idx = list(range(len(c["vars"])))
@@ -652,7 +661,7 @@ def library_order(s, rng=None):
     """The order in which libcellml holds the components after parsing: the parser re-adds every encapsulation
     root (Model::addComponent moves it to the end), so top-level components without children come first (in
     document order), then the encapsulation roots with their subtrees.  With rng: siblings are shuffled first."""
-    s = copy.deepcopy(s)
+    s = _copy(s)
     kids = {}
     for ci, c in enumerate(s["comps"]):
         kids.setdefault(c["parent"], []).append(ci)
@@ -687,7 +696,7 @@ def permute_components(rng, s):
 
 def permute_connections(rng, s):
     """shuffle the map_variables and flip their direction"""
-    s = copy.deepcopy(s)
+    s = _copy(s)
     rng.shuffle(s["conns"])
     s["conns"] = [c if rng.random() < 0.5 else c[::-1] for c in s["conns"]]
     return s
@@ -697,7 +706,7 @@ def rename_per_component(rng, s, p=0.5):
     """rename variables component by component (references in equations and initial values follow):
     afterwards names that were equal across components may differ and vice versa; inside a component names stay
     unique.  This is a 'consistent renaming' of the CellML document."""
-    s = copy.deepcopy(s)
+    s = _copy(s)
     top = 1 + max([v["name"] for c in s["comps"] for v in c["vars"]] + [0])
     pool = list(range(top + 6))
     for c in s["comps"]:
@@ -728,6 +737,105 @@ def rename_per_component(rng, s, p=0.5):
 def reorder(rng, s):
     """one random re-ordering of everything the property mentions (components, variables, equations, connections)"""
     return permute_connections(rng, permute_variables(rng, permute_equations(rng, permute_components(rng, s))))
+
+
+def parser_safe(s):
+    """libcellml's Parser reports 'Connection ... is not unique' when one <connection> maps a~b and b~a by NAME
+    (two different variable pairs whose names are swapped); such documents are not generated."""
+    seen = {}
+    for a, b in s["conns"]:
+        (ca, va), (cb, vb) = a, b
+        na, nb = s["comps"][ca]["vars"][va]["name"], s["comps"][cb]["vars"][vb]["name"]
+        key = frozenset([ca, cb])
+        pair = frozenset([na, nb])
+        if pair in seen.setdefault(key, set()):
+            return False
+        seen[key].add(pair)
+    return True
+
+
+def isolated_closure(s):
+    """The analyser's first pass, structurally: repeatedly take an equation all of whose classes but one are
+    known (initialised, variable of integration, or already computed; a state counts as known but its ODE still
+    has to be found) and in which that one is alone on a side of the equality (as a variable, or under diff for
+    a state) *under the name its class's tracked variable has* -- the tracked variable being the first one met
+    (equations of a component first, then its variables, components in depth-first order) or the initialised
+    one.  Returns (set of equation ids typed, set of classes computed).  A system all of whose equations are
+    typed this way never enters the analyser's NLA pass with a choice to make."""
+    comps = s["comps"]
+    # tracked variable (name) of each class, as analyseComponent builds it
+    tracked = {}
+    inited = set()
+
+    def meet(ci, vi):
+        v = comps[ci]["vars"][vi]
+        if v["cls"] not in tracked:
+            tracked[v["cls"]] = v["name"]
+            if v["init"] is not None:
+                inited.add(v["cls"])
+
+    def occurrences(e, out):
+        if e[0] == "V":
+            out.append(("v", e[1]))
+        elif e[0] == "D":
+            out.append(("d", e[2]))
+            out.append(("t", e[1]))
+        elif e[0] == "O":
+            occurrences(e[1], out)
+            occurrences(e[2], out)
+        return out
+    eqs = []
+    for ci, c in enumerate(comps):
+        byname = {v["name"]: vi for vi, v in enumerate(c["vars"])}
+        for q in c["eqs"]:
+            occ = occurrences(q["lhs"], []) + occurrences(q["rhs"], [])
+            for kind, n in occ:
+                if kind != "t":
+                    meet(ci, byname[n])
+            eqs.append((ci, q, occ, byname))
+        for vi, v in enumerate(c["vars"]):
+            meet(ci, vi)
+            if v["init"] is not None and v["cls"] not in inited:
+                tracked[v["cls"]] = v["name"]
+                inited.add(v["cls"])
+    cls = {(ci, v["name"]): v["cls"] for ci, c in enumerate(comps) for v in c["vars"]}
+    voi = {cls[(ci, n)] for ci, q, occ, _ in eqs for kind, n in occ if kind == "t"}
+    states = {cls[(ci, n)] for ci, q, occ, _ in eqs for kind, n in occ if kind == "d"} - voi
+    known = set(inited) | voi | states
+    indexed = set()
+    typed, computed = set(), set()
+    progress = True
+    while progress:
+        progress = False
+        for ci, q, occ, byname in eqs:
+            if q["id"] in typed:
+                continue
+            plain = list(dict.fromkeys(cls[(ci, n)] for kind, n in occ if kind == "v"))
+            odes = list(dict.fromkeys(cls[(ci, n)] for kind, n in occ if kind == "d"))
+            left = [k for k in plain if k not in known] + [k for k in odes if k not in indexed]
+            if len(left) != 1:
+                continue
+            k = left[0]
+            if k in voi or (k in states and k not in inited):
+                continue
+
+            def alone(side):
+                return (side[0] == "V" and side[1] == tracked[k]) or (side[0] == "D" and side[2] == tracked[k])
+            if not (alone(q["lhs"]) or alone(q["rhs"])):
+                continue
+            typed.add(q["id"])
+            computed.add(k)
+            known.add(k)
+            indexed.add(k)
+            tracked[k] = next(v["name"] for v in comps[ci]["vars"] if v["cls"] == k)
+            progress = True
+    return typed, computed
+
+
+def first_pass_complete(s):
+    """every equation is typed by isolated_closure"""
+    typed, _ = isolated_closure(s)
+    return all(q["id"] in typed for c in s["comps"] for q in c["eqs"])
 
 
 def nontrivial(s):
